@@ -140,8 +140,10 @@ CLAIMS["C13"] = {
             "key/value domain: along every history of <= 3 pulls from the initial state, every emitted pair is a real match of arrived entries, "
             "emitted + queued always equals the cardinality of the join of everything that arrived, and whenever the join stalls (Pending/Ended) "
             "nothing is left queued and exactly the join was emitted; it ends only when both sides ended.",
-    "note": "NOT covered (and the core of the property's anchors): HalfSetJoinState / HalfMultisetJoinState themselves (FxHashMap + SmallVec + "
-            "VecDeque) and NewTickJoinIter (tied to std hash_map::Iter): hashbrown is outside CBMC's reach. A change in build/probe/pop_match or in "
+    "note": "Hardly covered (and the core of the property's anchors): HalfSetJoinState / HalfMultisetJoinState themselves (FxHashMap + SmallVec + "
+            "VecDeque): the thorough tier runs the REAL states with ONE built pair (concrete keys, symbolic values; ~5 min each: build reports a "
+            "new pair, len, probe of the same / another key, nothing queued) -- duplicate detection, several values per key and the match queue "
+            "need a second table operation, which is outside CBMC's reach; NewTickJoinIter (tied to std hash_map::Iter) is not covered. A change in build/probe/pop_match or in "
             "the new-tick iterator is not detected; a change in the orchestration is. Code generators in dfir_lang/ops/join*.rs are not covered.",
     "technique": "contract-based verification: Kani bounded histories of the real pull against a reference implementation of the callee contract",
     "design": "DESIGN.md §5 C13",
